@@ -108,6 +108,10 @@ func vhC02Shapes(k int) []vhPgon {
 		return []vhPgon{{{0, 0}, {4, 8}}, {{0, 0}, {0, 8}, {3, 0}, {1, 3}, {1, 7}, {5, 2}}}
 	case 19: // the same hexagon, the zero-area subpath last
 		return []vhPgon{{{0, 0}, {0, 8}, {3, 0}, {1, 3}, {1, 7}, {5, 2}}, {{0, 0}, {4, 8}}}
+	case 20: // a vertex lying exactly on a steeply descending edge of the same contour (slope -1)
+		return []vhPgon{{{3, 0}, {0, 3}, {1, 0}, {2, 2}, {1, 2}}}
+	case 21: // the same with the vertex on an edge of another contour, slope -2
+		return []vhPgon{{{4, 0}, {0, 8}, {0, 0}}, {{2, 4}, {6, 4}, {6, 6}}}
 	default: // stacked triangular holes
 		return []vhPgon{vhRect(0, 0, 10, 12, true), {{3, 2}, {5, 4}, {7, 2}}, {{3, 6}, {5, 9}, {7, 6}}}
 	}
@@ -127,7 +131,7 @@ func vhC02Tail(k int) (vhPgon, []vhPgon) {
 	return nil, nil
 }
 
-const vhC02NShapes = 20
+const vhC02NShapes = 22
 
 // C02: Settle(rule) fills exactly what the input fills under the rule; output windings are 0/1
 // and every output contour's orientation makes NonZero, EvenOdd and Positive agree.
